@@ -9,7 +9,10 @@
                    variant whose preprocessor-cache key is equal
    leg ppcache:    case = ( step ... )
        step = ( rec fresh date key ( (name system) ... ) ( file ... ) [ ( vanish-name ... ) ] )
-              vanish: files removed AFTER the include recorder ran and BEFORE add_result stats them
+              window: files removed (a bare name) or rewritten (a file entry with cnew = 1) AFTER the include
+              recorder ran and BEFORE add_result stats them
+       date = SOURCE_DATE_EPOCH bytes, or "@A" / "@B" = the server runs in time zone UTC-12 / UTC+14 (different local
+              calendar days); the model treats the date as an opaque value
             | ( look date ( file ... ) )
        file = ( name kind bytes mtime cnew )     kind 0 regular, 1 directory (with |bytes| entries), 2 absent, 3 fifo;
                                                  cnew 1 = written after the compile start instant (rec steps only)
@@ -130,7 +133,10 @@ Definition rec_step (cfg : config) (s : st) (fresh date k : sx) (incs files vani
   let j := s_j s in
   let fs := apply_files true j (s_fs s) files in
   (* what is left when add_result runs: somebody removed the `vanish` files after the recorder looked at them *)
-  let fs_add := fold_left (fun f v => fs_remove f (get_B v)) vanish fs in
+  let fs_add := fold_left (fun f v => match v with
+                                      | SL _ => apply_file true j f v     (* rewritten, after the start instant *)
+                                      | _ => fs_remove f (get_B v)         (* removed *)
+                                      end) vanish fs in
   let incl := map (fun i => match i with
                             | SL [n; sy] => (get_B n, get_bool sy)
                             | _ => ([], false)
